@@ -179,6 +179,14 @@ def pairs_scope(r, name, d, thorough, offset=0):
         pick = [settings[(offset + j) % n_] for j in range(4)]
         if d.get("language") == "c":
             pick += [x for x in settings if x[1] in ("C_force_wrapper", "F_force_wrapper") and x not in pick]
+        # options that only act on particular declaration forms are always tried where such a declaration exists
+        text = " ; ".join(e.get("decl", "") for e in decl_entries(d))
+        want = []
+        if re.search(r"(^|; )\s*(const\s+)?\w[\w ]*\*\s*\w+\(", text):
+            want += ["return_scalar_pointer", "F_return_fortran_pointer"]
+        if re.search(r"char|string", text):
+            want += ["F_string_len_trim", "F_create_bufferify_function"]
+        pick += [x for x in settings if x[1] in want and x not in pick]
         settings = pick
     classes = [e for e in decl_entries(d) if e["decl"].lstrip().startswith(("class", "template<typename T> class"))]
     has_members = any("(" not in m["decl"] for c in classes for m in c.get("declarations") or [])
